@@ -1,6 +1,8 @@
 // Unit U12a raw_proto: layout21raw <-> vlsir protobuf leaf converters (C14).
 use vstd::prelude::*;
+use vstd::std_specs::hash::*;
 use std::convert::{TryFrom, TryInto};
+use std::collections::HashMap;
 verus! {
 global size_of usize == 8;
 //@ include units/common/float.inc.rs
